@@ -312,7 +312,7 @@ def finish(ctx, level, coverage, assumptions):
     """Decide, write evidence, print lines, return exit code."""
     out_lines = []
     nviol = 0
-    for i, v in enumerate(ctx.violations[:20]):
+    for i, v in enumerate(ctx.violations[:5]):
         path = write_replay(ctx, i, v)
         out_lines.append("VIOLATION property=%s replay=%s" % (ctx.prop, path))
         nviol += 1
